@@ -106,6 +106,7 @@ type c11Member struct {
 	calls   int
 	closed  bool
 	failed  int // number of calls answered with an injected error
+	closes  int // number of Close calls
 }
 
 type c11Fault struct{ m int }
@@ -130,6 +131,7 @@ func (m *c11Member) enter(op byte, id int, tag int) byte {
 	m.w.log = append(m.w.log, s)
 	if op == 'x' {
 		m.closed = true
+		m.closes++
 		return 'n'
 	}
 	f := m.dflt
@@ -511,6 +513,7 @@ type c11Case struct {
 	ImplFinal  string   `json:"impl_final_contents,omitempty"`
 	ModelFinal string   `json:"model_final_contents,omitempty"`
 	Fresh      bool     `json:"swap_stacks_use_fresh_members"`
+	predBad    bool     // the last c11Check found a predicate failure (not only a model disagreement)
 }
 
 func c11ParseMember(w *c11World, idx int, s string) (*c11Member, error) {
@@ -661,15 +664,26 @@ func c11ExecOp(run *c11Run, top desync.Store, swap *desync.SwapStore, op string)
 			return "", perr
 		}
 		oldW, newW := run.cur.writable(), shape.writable()
+		var old []int
+		run.cur.leaves(&old)
+		closesBefore := 0
+		for _, k := range old {
+			closesBefore += run.w.members[k].closes
+		}
 		e := swap.Swap(run.buildTop(shape))
 		if (e != nil) != (oldW && !newW) {
 			run.fail("swap/writable-rule", "Swap of a %v-writable store for a %v-writable one returned %v", oldW, newW, e)
 		}
 		if e != nil {
+			// a refused Swap leaves the wrapped store in place: it must not have been closed
+			for _, k := range old {
+				closesBefore -= run.w.members[k].closes
+			}
+			if closesBefore != 0 {
+				run.fail("swap/closed-store-still-in-use", "Swap refused to replace the writable chain %s by the read-only %s (%v) but closed member stores of the chain that stays in use (%d Close calls)", run.cur, shape, e, -closesBefore)
+			}
 			return "W0", nil
 		}
-		var old []int
-		run.cur.leaves(&old)
 		for _, k := range old {
 			if !run.w.members[k].closed {
 				run.fail("swap/old-store-not-closed", "Swap succeeded but member %d of the replaced chain %s was not closed", k, run.cur)
@@ -697,6 +711,7 @@ func c11Check(o *vh.Oracle, r *vh.Result, c *c11Case, record bool) (bad bool, er
 			}
 		}
 	}
+	c.predBad = len(run.fails) > 0 || (c.Fresh && len(run.w.closedCalls) > 0)
 	for _, f := range run.fails {
 		bad = true
 		if record {
@@ -757,7 +772,7 @@ func c11Shrink(o *vh.Oracle, c *c11Case) *c11Case {
 		for k := len(cur.Ops) - 1; k >= 0; k-- {
 			t := cur
 			t.Ops = append(append([]string{}, cur.Ops[:k]...), cur.Ops[k+1:]...)
-			if bad, err := c11Check(o, nil, &t, false); err == nil && bad {
+			if bad, err := c11Check(o, nil, &t, false); err == nil && bad && (t.predBad || !cur.predBad) {
 				cur = t
 				changed = true
 			}
